@@ -35,23 +35,36 @@ class Notifications(object):
         self._touched_mp = {}
         self._touched_bp = {}
         self._highest_block = -1
+        self._mempool_height = -1
 
     async def _maybe_notify(self):
         tmp, tbp = self._touched_mp, self._touched_bp
+        highest = self._highest_block
+        if highest >= 0:
+            # Sets still pending above the current block height were orphaned by a reorg;
+            # they belong to the current height now
+            for pending in (tmp, tbp):
+                for orphaned in [h for h in pending if h > highest]:
+                    tbp.setdefault(highest, set()).update(pending.pop(orphaned))
         common = set(tmp).intersection(tbp)
         if common:
             height = max(common)
-        elif tmp and max(tmp) == self._highest_block:
-            height = self._highest_block
+        elif tmp and max(tmp) == highest:
+            height = highest
+        elif tbp.get(highest) and self._mempool_height == highest:
+            # Nothing new from the mempool, which has already been refreshed at this height
+            height = highest
         else:
             # Either we are processing a block and waiting for it to
             # come in, or we have not yet had a mempool update for the
             # new block height
             return
-        # Hand over everything pending from either source so that no touched hashX is lost
+        # Hand over everything pending at or below this height from either source so that no
+        # touched hashX is lost.  Sets of blocks above this height wait for their own height,
+        # so that sessions get them together with the height change.
         touched = set()
         for pending in (tmp, tbp):
-            for old in list(pending):
+            for old in [h for h in pending if h <= height]:
                 touched.update(pending.pop(old))
         await self.notify(height, touched)
 
@@ -65,6 +78,7 @@ class Notifications(object):
 
     async def on_mempool(self, touched, height):
         self._touched_mp.setdefault(height, set()).update(touched)
+        self._mempool_height = height
         await self._maybe_notify()
 
     async def on_block(self, touched, height):
